@@ -19,26 +19,35 @@ Open Scope N_scope.
     any later steps [post] (more replies, syncs, rollovers, polls in any order), the waiter of the
     reply is covered at the end.  (The value it compares with is monotone, and the sync that
     follows the reply covers it for ever.) *)
-Theorem C20_no_lost_wakeup : forall pre n mid post,
+Theorem C20_no_lost_wakeup : forall pre mid post,
   (exists st, In st mid /\ is_sync st = true) ->
-  poll_ok (sw_run PerSegment (pre ++ SReply n :: mid ++ post)) (next_waiter PerSegment pre) = true.
+  poll_ok (sw_run PerSegment (pre ++ SReply :: mid ++ post)) (next_waiter PerSegment pre) = true.
 Proof. exact no_lost_wakeup. Qed.
 
-(** A poll succeeds ONLY if a sync/rollover of the waiter's own segment happened after its reply:
-    an acknowledgement always follows the fsync + index publication that covers it. *)
-Theorem C20_ack_after_sync : forall pre n mid,
+(** ... and, generally, a poll that succeeds once (e.g. because sync_if_necessary ran between the
+    transaction's write and its reply) succeeds at every later time. *)
+Theorem C20_covered_forever : forall tr post w,
+  poll_ok (sw_run PerSegment tr) w = true -> poll_ok (sw_run PerSegment (tr ++ post)) w = true.
+Proof. exact covered_forever. Qed.
+
+(** A poll succeeds ONLY if a sync/rollover of the segment the transaction was written to happened
+    after that write: for a write of n > 0 bytes followed (after any steps) by its reply, the
+    reply's waiter is satisfied only if some later step is a sync or rollover executed while that
+    segment is still the live one.  So an acknowledgement always follows the fsync + index
+    publication that covers the acknowledged bytes (the C01 ordering). *)
+Theorem C20_ack_after_sync : forall pre n mid post,
   0 < n ->
-  poll_ok (sw_run PerSegment (pre ++ SReply n :: mid)) (next_waiter PerSegment pre) = true ->
-  exists m1 st m2, mid = m1 ++ st :: m2 /\ is_sync st = true /\
-                   sw_seg (sw_run PerSegment (pre ++ SReply n :: m1)) = sw_seg (sw_run PerSegment pre).
+  poll_ok (sw_run PerSegment (pre ++ SWrite n :: mid ++ SReply :: post)) (next_waiter PerSegment (pre ++ SWrite n :: mid)) = true ->
+  exists m1 st m2, mid ++ SReply :: post = m1 ++ st :: m2 /\ is_sync st = true /\
+                   sw_seg (sw_run PerSegment (pre ++ SWrite n :: m1)) = sw_seg (sw_run PerSegment pre).
 Proof. exact ack_after_sync. Qed.
 
 (** Under the fairness assumption that every window of k worker steps contains a sync (the syncer
     thread's FlushPoll arrives at least every k steps), the append's poll succeeds after at most
     k worker steps following its reply, i.e. it completes within k + 1 steps. *)
-Theorem C20_bounded_steps : forall k pre n mid,
-  fair k (pre ++ SReply n :: mid) -> (k <= length mid)%nat ->
-  poll_ok (sw_run PerSegment (pre ++ SReply n :: mid)) (next_waiter PerSegment pre) = true.
+Theorem C20_bounded_steps : forall k pre mid,
+  fair k (pre ++ SReply :: mid) -> (k <= length mid)%nat ->
+  poll_ok (sw_run PerSegment (pre ++ SReply :: mid)) (next_waiter PerSegment pre) = true.
 Proof. exact bounded_steps. Qed.
 
 (** The code before fix 9690820 (one watch value across rollovers):
@@ -47,7 +56,7 @@ Proof. exact bounded_steps. Qed.
     (b) a waiter of the old segment that polls after the new segment's first sync is not satisfied,
         and no number of further syncs and polls satisfies it (lost wake-up). *)
 Theorem C20_shared_refuted :
-  poll_ok (sw_run Shared shared_early) (next_waiter Shared [SReply 1000; SSync; SRoll]) = true /\
+  poll_ok (sw_run Shared shared_early) (next_waiter Shared [SWrite 1000; SReply; SSync; SRoll; SWrite 10]) = true /\
   (forall tail, Forall (fun st => st = SSync \/ exists w, st = SPoll w) tail ->
      poll_ok (sw_run Shared (shared_late ++ tail)) (next_waiter Shared []) = false).
 Proof. split; [exact shared_ack_before_sync|exact shared_lost_wakeup]. Qed.
@@ -55,23 +64,28 @@ Proof. split; [exact shared_ack_before_sync|exact shared_lost_wakeup]. Qed.
 (** Non-vacuity. *)
 (* the same two schedules are fine after the fix *)
 Example C20_witnesses_fixed :
-  poll_ok (sw_run PerSegment shared_early) (next_waiter PerSegment [SReply 1000; SSync; SRoll]) = false /\
+  poll_ok (sw_run PerSegment shared_early) (next_waiter PerSegment [SWrite 1000; SReply; SSync; SRoll; SWrite 10]) = false /\
   poll_ok (sw_run PerSegment shared_late) (next_waiter PerSegment []) = true.
 Proof. vm_compute. split; reflexivity. Qed.
 
-(* the fairness hypothesis is satisfiable, with k = 3 *)
-Example C20_fair_example : fair 3 ([SReply 7; SSync] ++ SReply 5 :: [SPoll 1; SSync; SReply 3; SRoll]).
+(* the fairness hypothesis is satisfiable, with k = 4 *)
+Example C20_fair_example : fair 4 ([SWrite 7; SReply; SSync; SWrite 5] ++ SReply :: [SPoll 1; SSync; SWrite 3; SRoll]).
 Proof. apply fairb_fair. vm_compute. reflexivity. Qed.
 
 Example C20_bounded_example :
-  poll_ok (sw_run PerSegment ([SReply 7; SSync] ++ SReply 5 :: [SPoll 1; SSync])) 1 = true.
+  poll_ok (sw_run PerSegment ([SWrite 7; SReply; SSync; SWrite 5] ++ SReply :: [SPoll 1; SSync; SWrite 3; SRoll])) 1 = true.
 Proof. vm_compute. reflexivity. Qed.
 
 (* a poll before any sync does not succeed (the acknowledgement really waits) *)
-Example C20_waits : poll_ok (sw_run PerSegment [SReply 7; SPoll 0]) 0 = false.
+Example C20_waits : poll_ok (sw_run PerSegment [SWrite 7; SReply; SPoll 0]) 0 = false.
+Proof. vm_compute. reflexivity. Qed.
+
+(* sync_if_necessary between the write and the reply: the reply is satisfied at once *)
+Example C20_sync_before_reply : poll_ok (sw_run PerSegment [SWrite 7; SSync; SReply]) 0 = true.
 Proof. vm_compute. reflexivity. Qed.
 
 Print Assumptions C20_no_lost_wakeup.
+Print Assumptions C20_covered_forever.
 Print Assumptions C20_ack_after_sync.
 Print Assumptions C20_bounded_steps.
 Print Assumptions C20_shared_refuted.
